@@ -38,7 +38,7 @@ def check(chk: Check) -> None:
     chk.trusted += ["io model: BufferedReader.read(n) is exact-or-EOF, peek(n) performs at most one raw read and may return fewer bytes; a caller-supplied buffered stream's read(n) is exact-or-EOF (documented input contract)"]
     chk.undecided += ["behaviour of third-party file objects that violate io.BufferedIOBase", "gzip internals"]
     for sname, skw in SOURCES:
-        for delim in (True, False):
+        for delim, big in ((True, False), (False, False), (True, True)):
             for integ, mod, parser in PARSERS:
 
                 def scenario(it: Interp) -> Any:
@@ -47,7 +47,7 @@ def check(chk: Check) -> None:
                     frames = [w.frame([w.options_row(1, 1)] + w.statement_rows(1, 1, "a"))]
                     if delim:
                         frames.append(w.frame(w.statement_rows(1, 1, "b")))
-                    hdr = b"\x20\x0a\x05" if delim else b"\x0a\x05\x0a"
+                    hdr = (b"\x80\x40\x0a" if big else b"\x20\x0a\x05") if delim else b"\x0a\x05\x0a"
                     inp = K.models.make_input(AIter(iter(frames), "frames"), hdr, **skw)
                     res = k.call(k.get(mod, parser), inp)
                     try:
@@ -57,7 +57,7 @@ def check(chk: Check) -> None:
                             raise
                     return None
 
-                inst = f"{sname} | delimited={delim} | {integ}.{parser}"
+                inst = f"{sname} | delimited={delim}{' first frame of 8192 bytes' if big else ''} | {integ}.{parser}"
                 for it, out in explore(prog, scenario, max_paths=8, generic_strings=True):
                     chk.paths += 1
                     chk.saw_functions(it)
@@ -93,8 +93,16 @@ def check(chk: Check) -> None:
                         chk.fail("C09.OWN.wrapper", inst, f"pyjelly.parse.ioutils.get_options_and_frames:{branch}", f"{raw_after[0]['method']}() is called on the raw input after it was wrapped (bytes buffered by the wrapper are skipped)")
                     else:
                         chk.ok("C09.OWN.wrapper", inst, None)
+                    # -- frame bodies read by pyjelly itself must come from exact reads
+                    inexact = [e for e in it.events if e["kind"] == "parse_input" and not e["exact"]]
+                    if inexact:
+                        chk.fail("C09.TABLE.frame-reader", inst, f"pyjelly.parse.ioutils.frame_iterator:{inexact[0]['via']}", f"a frame body of {inexact[0]['n']} bytes is read with {inexact[0]['via']}(), which may return fewer bytes than requested on a {sname}: the frame is cut and the remainder is read as the next length prefix")
+                        continue
+                    own = [e for e in it.events if e["kind"] == "parse_input"]
                     # -- frame reader
-                    if delim:
+                    if delim and own:
+                        chk.ok("C09.TABLE.frame-reader", inst, {"own_reader": True, "reads": [(e["via"], e["n"]) for e in own]})
+                    elif delim:
                         plp = [e for e in ios if e["method"] == "parse_length_prefixed"]
                         unbuffered = [e for e in plp if isinstance(e["recv"], ExtObj) and e["recv"].kind == "io.stream" and not e["recv"].attrs["buffered"]]
                         # reads on the raw object below a BufferedReader (the caller's or pyjelly's) bypass its buffer
